@@ -31,7 +31,7 @@ def r1_inplace_twins(run, tree):
     run.rule("C17.R1", "in-place twins: same ufunc and strictness as the sibling, out=self; Vector forwards in-place dunders",
              "sibling agreement", "S4", floor=8)
     inplace = {k: v for k, v in optab.ARITH.items() if v[2]}
-    ct.check_operator_table(run, tree, inplace)
+    af.check_operator_table_fold(run, tree, inplace)
     ci = tree.cls(ARRAY)
     for ip, op in optab.INPLACE_OF.items():
         a, b = tree.method(ci, ip), tree.method(ci, op)
@@ -224,39 +224,10 @@ def r5_shallow_container_copies(run, tree):
 
 
 def r6_views(run, tree):
-    run.rule("C17.R6", "slices are views: __getitem__ wraps the numpy index result without copying", "origin rule", "", floor=2)
-    ci = tree.cls(ARRAY)
-    fi = tree.method(ci, "__getitem__")
-    construct = ARRAY + ".__getitem__"
-    run.analysed(fi)
-    pn = params(fi)
-    rets = [r for r in returns_of(fi.node) if r.value is not None]
-    ok = bool(rets)
-    detail = []
-    for r in rets:
-        v = r.value
-        if not isinstance(v, ast.Call):
-            ok = False
-            detail.append("returns %s" % norm(v)[:60])
-            continue
-        vals = None
-        for k in v.keywords:
-            if k.arg == "values":
-                vals = k.value
-        if vals is None and v.args:
-            vals = v.args[0]
-        good = isinstance(vals, ast.Subscript) and norm(vals.value) in ("%s._array" % pn[0],) and is_name(vals.slice, pn[1])
-        unit = [k.value for k in v.keywords if k.arg == "unit"]
-        name = [k.value for k in v.keywords if k.arg == "name"]
-        good_meta = bool(unit) and norm(unit[0]) in ("%s.unit" % pn[0], "%s._unit" % pn[0]) and bool(name) and \
-            norm(name[0]) in ("%s.name" % pn[0],)
-        if not good:
-            ok = False
-        detail.append("values=%s unit=%s name=%s" % (norm(vals) if vals is not None else "?", norm(unit[0]) if unit else "-",
-                                                      norm(name[0]) if name else "-"))
-        run.ob(construct + "::unit-name-kept", good_meta, fi.where(r), detail[-1], "a[1:3] loses unit or name", nontrivial=False)
-    run.ob(construct + "::view", ok, fi.where(), "; ".join(detail),
-           "s = a[1:3]; a *= 2 is not seen through s (slice copied), or s *= 2 does not reach a")
+    run.rule("C17.R6", "slices are views: Array.__init__ keeps the buffer it is given, __getitem__ wraps the numpy index result without copying",
+             "D7 fold of Array.__init__/__getitem__ over buffer tokens", "", floor=8)
+    af.check_constructor_fold(run, tree)
+    af.check_index_gate_fold(run, tree)
     from . import core_folds as cf
     cf.check_vector_unary_and_maps(run, tree)
     cf.check_group_copy(run, tree)
